@@ -192,6 +192,25 @@ def generate(max_per_file):
     print(stats, len(survivors), "survive the baseline tests")
 
 
+RANGES = {  # finer than FILES: (first line, last line, checks) for files that serve several properties
+    "superrec2/model/reconciliation.py": [(1, 234, ["C12", "C08"]), (235, 380, ["C01", "C13"]),
+                                          (381, 10 ** 6, ["C02", "C03"])],
+    "superrec2/utils/trees.py": [(1, 147, ["C01", "C02"]), (148, 369, ["C20"]),
+                                 (370, 10 ** 6, ["C08"])],
+    "superrec2/utils/dynamic_programming.py": [(1, 10 ** 6, ["C16"])],
+    "superrec2/utils/toposort.py": [(1, 10 ** 6, ["C19"])],
+}
+
+
+def checks_for(sv):
+    m = re.match(r"L(\d+) ", sv["what"])
+    line = int(m.group(1)) if m else 0
+    for lo, hi, pids in RANGES.get(sv["file"], []):
+        if lo <= line <= hi:
+            return pids
+    return FILES[sv["file"]][:2]
+
+
 def check(first, last):
     doc = json.load(open(os.path.join(WORK, "survivors.json")))
     results_path = os.path.join(WORK, "results.json")
@@ -208,7 +227,7 @@ def check(first, last):
             open(path, "wb").write(raw[:sv["offset"]] + sv["new"].encode()
                                    + raw[sv["offset"] + sv["length"]:])
             verdict = {"caught_by": None, "label": None, "tried": [], "what": sv["what"]}
-            for pid in FILES[sv["file"]][:2]:
+            for pid in checks_for(sv):
                 env = dict(os.environ, VERIF_REPO_SRC=os.path.join(scratch, "src"),
                            VERIF_SCRATCH_OUT=os.path.join(scratch, "out"))
                 try:
